@@ -4,6 +4,7 @@ import z3
 
 RefS = z3.DeclareSort("Ref")
 StrS = z3.DeclareSort("Str")
+IdS = z3.DeclareSort("Id")       # identifiers (order / loan ids): strings that are only compared, kept apart from symbols
 NULL = z3.Const("null", RefS)
 INF = z3.Real("INF")            # Decimal("Infinity"): only comparisons are allowed on it
 EMPTY_STR = z3.Const("str_empty", StrS)
@@ -12,7 +13,7 @@ EMPTY_STR = z3.Const("str_empty", StrS)
 # Type descriptors: 'Int' 'Real' 'Bool' 'Str' 'DT' 'TD' 'NoneT' 'Any' 'Fun'
 #   ('Ref', cls) ('Opt', T) ('Tuple', (T..)) ('Enum', name) ('Val', name)
 # ---------------------------------------------------------------------------------------
-SCALARS = {"Int", "Real", "Bool", "Str", "DT", "TD", "NoneT", "Any", "Fun", "Type", "Exc", "Float"}
+SCALARS = {"Int", "Real", "Bool", "Str", "Id", "DT", "TD", "NoneT", "Any", "Fun", "Type", "Exc", "Float"}
 
 
 def is_ref(t):
@@ -245,6 +246,8 @@ def sort_of(t):
         return z3.BoolSort()
     if t == "Str":
         return StrS
+    if t == "Id":
+        return IdS
     if isinstance(t, tuple):
         if t[0] == "Ref":
             return RefS
